@@ -89,6 +89,9 @@ func checkC01(r *Run) propMeta {
 	// ---- R7 scope snapshots carry every field; R8 LIKE patterns escape all three metacharacters
 	checkTranslatorCopies(r, tp, pg)
 	checkLikeEscaping(r, tp)
+	checkPartStateConsumed(r, tp)
+	checkAggregateDistinct(r, tp, pg)
+	r.Floor("C01-R9-part-state-consumed", 6)
 	r.Floor("C01-R1-formatter-completeness", 60)
 	r.Floor("C01-R2-translator-consumption", 60)
 	r.Floor("C01-R3-guard", 4)
